@@ -170,7 +170,9 @@ fn run(op: &str, re: &Regex, text: &str, pos: usize, arg: usize) -> String {
             Err(e) => format!("E:{}", err_name(&e)),
         },
         "find_iter" => {
+            // same bound as the symbolic driver: a correct iterator yields at most len + 2 items
             let mut s = String::new();
+            let mut k = 0;
             for m in re.find_iter(text) {
                 match m {
                     Ok(m) => {
@@ -179,12 +181,16 @@ fn run(op: &str, re: &Regex, text: &str, pos: usize, arg: usize) -> String {
                     }
                     Err(e) => s.push_str(&format!("E:{};", err_name(&e))),
                 }
+                k += 1;
+                if k > text.len() + 4 {
+                    break;
+                }
             }
             s
         }
         "captures_iter" => {
             let mut s = String::new();
-            for c in re.captures_iter(text) {
+            for c in re.captures_iter(text).take(text.len() + 5) {
                 match c {
                     Ok(c) => {
                         s.push_str(&caps_canon(&c));
@@ -197,7 +203,7 @@ fn run(op: &str, re: &Regex, text: &str, pos: usize, arg: usize) -> String {
         }
         "split" => {
             let mut s = String::new();
-            for p in re.split(text) {
+            for p in re.split(text).take(text.len() + 7) {
                 match p {
                     Ok(p) => {
                         let off = p.as_ptr() as usize - text.as_ptr() as usize;
@@ -210,7 +216,7 @@ fn run(op: &str, re: &Regex, text: &str, pos: usize, arg: usize) -> String {
         }
         "splitn" => {
             let mut s = String::new();
-            for p in re.splitn(text, arg) {
+            for p in re.splitn(text, arg).take(text.len() + 7) {
                 match p {
                     Ok(p) => {
                         let off = p.as_ptr() as usize - text.as_ptr() as usize;
@@ -221,12 +227,15 @@ fn run(op: &str, re: &Regex, text: &str, pos: usize, arg: usize) -> String {
             }
             s
         }
-        "replacen_noexpand" | "replacen_str" | "replacen_closure" | "replacen_dollar0" => {
+        "replacen_noexpand" | "replacen_str" | "replacen_closure" | "replacen_dollar0" | "replacen_dollardollar" | "replacen_group1" | "replacen_braced" => {
             let r = match op {
                 "replacen_noexpand" => re.try_replacen(text, arg, NoExpand("x")),
                 "replacen_str" => re.try_replacen(text, arg, "x"),
                 "replacen_closure" => re.try_replacen(text, arg, |_: &Captures| "x".to_string()),
-                _ => re.try_replacen(text, arg, "<$0>"),
+                "replacen_dollar0" => re.try_replacen(text, arg, "<$0>"),
+                "replacen_dollardollar" => re.try_replacen(text, arg, "$$"),
+                "replacen_group1" => re.try_replacen(text, arg, "[$1]"),
+                _ => re.try_replacen(text, arg, "${1}a$$"),
             };
             match r {
                 Ok(c) => {
@@ -237,6 +246,25 @@ fn run(op: &str, re: &Regex, text: &str, pos: usize, arg: usize) -> String {
             }
         }
         "captures_len" => format!("{}", re.captures_len()),
+        "entry_points" => {
+            // every public entry point; a panic is caught by the caller and printed as PANIC
+            let _ = run("find_iter", re, text, pos, arg);
+            let _ = run("captures_iter", re, text, pos, arg);
+            let _ = run("split", re, text, pos, arg);
+            let _ = run("splitn", re, text, pos, 2);
+            for n in 0..4 {
+                for op in ["replacen_noexpand", "replacen_str", "replacen_closure", "replacen_dollar0", "replacen_dollardollar", "replacen_group1", "replacen_braced"] {
+                    let _ = run(op, re, text, pos, n);
+                }
+            }
+            for n in 0..6 {
+                let _ = run("splitn", re, text, pos, n);
+            }
+            if let Ok(Some(c)) = re.captures(text) {
+                let _ = &c[0];
+            }
+            "OK".to_string()
+        }
         "coherence" => coherence(re, text, pos),
         "captures_meta" => {
             let mut names: Vec<(String, usize)> =
